@@ -1035,3 +1035,12 @@ Proof.
     assert (D : params_in_domain x) by (destruct x; try exact I; discriminate).
     specialize (M D). destruct (spec x) as [[w ms]|]; [contradiction | reflexivity].
 Qed.
+
+(* shape pins of the renderers whose meaning CommandsModel.v writes out by hand (tripwires, decided
+   by the correspondence run when they trip): saturating_add(1) in SongRange::new_usize, the
+   "{}:{}" / "{}:" formats, "{:.3}" of as_secs_f64 in Duration's and Seek's rendering, Tag's raw
+   put_slice(as_str) *)
+Lemma renderer_pins :
+  range_saturating = true /\ pin_songrange_argument = true /\ pin_duration_argument = true /\
+  pin_seek_format = true /\ pin_tag_argument = true.
+Proof. repeat split; reflexivity. Qed.
